@@ -717,4 +717,66 @@ theorem holdsAll_run (c : Cfg) (evs : List Ev) (hs : shape c evs = true) :
     holdsAll c evs (run c evs).log = true := by
   simp [holdsAll, holds_run c evs hs, holdsOpen_run c evs]
 
+/-! ### reversed ranges (`0 ≤ to < from`): the requested range is empty -/
+
+/-- `start` followed by at least one turn and nothing else -/
+def startTurns (evs : List Ev) : Bool :=
+  match evs with
+  | .start :: r => !r.isEmpty && r.all (· == .turn)
+  | _ => false
+
+/-- a range whose end lies before its start asks for no byte at all: nothing reaches the destination
+    and completion is signalled exactly once (random-access source, no injected fault, left to run) -/
+def holdsReversed (c : Cfg) (evs : List Ev) (obs : List Obs) : Bool :=
+  match c.range with
+  | some (f, t) =>
+    if !c.seq && !anyFault c && decide (0 ≤ t) && decide (t < f) && decide (f ≤ c.src.length) && startTurns evs
+    then writtenOf obs == [] && Obs.countP isFin obs == 1
+    else true
+  | none => true
+
+theorem startTurns_shape (evs : List Ev) (h : startTurns evs = true) :
+    ∃ n, evs = .start :: List.replicate (n + 1) .turn := by
+  match evs, h with
+  | .start :: r, h =>
+    simp only [startTurns, Bool.and_eq_true, Bool.not_eq_true', List.all_eq_true, beq_iff_eq] at h
+    obtain ⟨hne, hall⟩ := h
+    refine ⟨r.length - 1, ?_⟩
+    have hlen : r.length - 1 + 1 = r.length := by
+      cases r with
+      | nil => simp at hne
+      | cons _ _ => simp
+    rw [hlen]
+    congr 1
+    exact List.eq_replicate_iff.mpr ⟨rfl, hall⟩
+
+/-- **C14 (`holdsReversed_run`)**: on the model, for every source, block size and reversed range -/
+theorem holdsReversed_run (c : Cfg) (evs : List Ev) : holdsReversed c evs (run c evs).log = true := by
+  unfold holdsReversed
+  split
+  · rename_i f t hr
+    split
+    · rename_i hc
+      simp only [Bool.and_eq_true, Bool.not_eq_true', decide_eq_true_eq] at hc
+      obtain ⟨⟨⟨⟨⟨hseq, hnf⟩, ht0⟩, htf⟩, hfl⟩, hst⟩ := hc
+      obtain ⟨n, rfl⟩ := startTurns_shape evs hst
+      obtain ⟨_, hw, hfin, _, _⟩ := reversed_range c hseq hnf f t hr ht0 htf hfl n
+      simp [hw, hfin]
+    · rfl
+  · rfl
+
+/-- not vacuous: the range (2, 0) on a three-byte source; a copy that delivered the tail fails it -/
+example : holdsReversed { src := [65, 66, 67], block := 3, range := some (2, 0) } [.start, .turn, .turn]
+      (run { src := [65, 66, 67], block := 3, range := some (2, 0) } [.start, .turn, .turn]).log = true ∧
+    holdsReversed { src := [65, 66, 67], block := 3, range := some (2, 0) } [.start, .turn, .turn]
+      [Obs.ev 0, Obs.ev 1, wrote [67], fin, Obs.ev 2] = false := by decide
+
+/-- the predicate the driver evaluates -/
+def holdsEvery (c : Cfg) (evs : List Ev) (obs : List Obs) : Bool := holdsAll c evs obs && holdsReversed c evs obs
+
+/-- **C14 (`holdsEvery_run`)** -/
+theorem holdsEvery_run (c : Cfg) (evs : List Ev) (hs : shape c evs = true) :
+    holdsEvery c evs (run c evs).log = true := by
+  simp [holdsEvery, holdsAll_run c evs hs, holdsReversed_run c evs]
+
 end Qhttp.C14
